@@ -329,6 +329,21 @@ func c03Run(c *Ctx) {
 		}
 	}
 
+	// (3b) every substring of a few valid single terms (suffixes and prefixes on their own: "-only",
+	// "-or-later", "+ WITH", "Ref-", ":LicenseRef" ...) and the same inside a small expression
+	for _, term := range []string{"MIT-only", "Apache-2.0-or-later+", "GPL-2.0-or-later WITH Bison-exception-2.2", "DocumentRef-d:LicenseRef-x", "(MIT OR ISC) AND Zlib", "GPL-2.0+ WITH Classpath-exception-2.0"} {
+		for i := 0; i < len(term); i++ {
+			for j := i + 1; j <= len(term); j++ {
+				sub := term[i:j]
+				c03Probe(c, sub)
+				c03Probe(c, "MIT AND "+sub)
+				c03Probe(c, sub+" OR MIT")
+				c03Probe(c, "("+sub+")")
+				c03Probe(c, "MIT WITH "+sub)
+			}
+		}
+	}
+
 	// (4) scaling families (only shard 0..len-1 pick them up, one family per worker)
 	sizes := []int{10, 100, 1000, 10000}
 	if thorough {
